@@ -243,6 +243,8 @@ impl World {
                     }
                 }
                 std::fs::write(self.src(f), bytes).unwrap();
+                // as in a real tree the grammar file is older than anything generated from it
+                filetime::set_file_mtime(self.src(f), filetime::FileTime::from_unix_time(SENTINEL - 1000, 0)).unwrap();
             }
             if let Some(c) = s.dest[f] {
                 std::fs::write(self.dst(f), &self.contents.table[c]).unwrap();
